@@ -97,6 +97,11 @@ CLAIMED = {
             "cwe_78::CWE_MODULE.name, LKM keeps exactly MODULES_LKM), no other mutation of the module list, every remaining module run once with config[module.name] (R2); partial filter by full-name equality with "
             "panic on unknown names (R3). Which warnings a selected check emits is not decided.",
             "3/C22", ""),
+    "C23": ("type-resolved enumeration of every iteration over std hash containers with the default RandomState hasher (both crates); consumer classification (method-chain terminal / for-loop body effects); selection-in-hash-order rule for elements that are or flow into warnings; final-sort dominance and derived total order of CweWarning",
+            "Decides hash-order flow into the warning output: all warnings are sorted by a derived total order after the last module and before printing, and exactly that vector is printed (R2), so production order cannot show; "
+            "no first-match/n-th/truncating/early-exit/last-writer selection is made in hash order among warnings or elements flowing into warnings (R1). All other order-sensitive sites (IR, analysis states, unsorted logs) "
+            "are listed as notes (R3) - whether they change the warnings of some input cannot be decided from the shape of the code. Thread scheduling is covered by C25.",
+            "3/C23", ""),
     "C24": ("loop/condition shape of get_program_callgraph; resolved Direction constants of neighbors_directed/edges_directed per traversal (contradiction rule), start-node and visited/edge-set provenance; normal form of the result expression (iterated set, membership test, mapping)",
             "Decides construction and direction agreement of the call-sequence query: every function is a node and every direct call to an internal function its own edge (self-calls included, parallel calls kept) (R1); "
             "each traversal follows and collects in one direction, the two use opposite directions and start at source resp. target, expand on first visit, with separate visited and edge sets (R2); the result keeps an "
